@@ -59,9 +59,14 @@ func H_rediff() {
 	root := rt.TempDir()
 	old.Write(root + "/old")
 	neu.Write(root + "/new")
-	d := hlib.Diff(root+"/old", root+"/new")
+	cin, cout := 0, 0
+	if rt.HasParam("cin") {
+		// compression settings of the input patch and of the optimizer's output (model codecs, hlib/codec.go)
+		cin, cout = rt.Param("cin"), rt.Param("cout")
+	}
+	d := hlib.DiffC(root+"/old", root+"/new", hlib.Codec(cin))
 	opt, _, err := hlib.Optimize(d.Patch, root+"/old", root+"/new", hlib.RediffOpts{
-		Partitions: rt.Param("parts"), Concurrency: rt.Param("conc"), ForceMapAll: rt.Param("force") == 1, SizeLimit: int64(rt.Param("limit"))})
+		Partitions: rt.Param("parts"), Concurrency: rt.Param("conc"), ForceMapAll: rt.Param("force") == 1, SizeLimit: int64(rt.Param("limit")), Compression: hlib.Codec(cout)})
 	rt.Assert(err == nil, "the optimizer returns no error on a valid patch")
 	if err != nil {
 		return
